@@ -33,7 +33,7 @@ def oracle_barrier(run):
         if k == "call":
             calls[tid] = calls.get(tid, 0) + 1
             locked_in_call[tid] = False
-        elif k == "mlk" and t[1] == "mtx":
+        elif k == "mlk":   # the barrier has one mutex, whatever it is called in the tree under test
             if not locked_in_call.get(tid, True):
                 locked_in_call[tid] = True
                 arrivals[tid] = arrivals.get(tid, 0) + 1
